@@ -1,0 +1,60 @@
+/*
+* Hifitime
+* Copyright (C) 2017-onward Christopher Rabotin <christopher.rabotin@gmail.com> et al. (cf. https://github.com/nyx-space/hifitime/graphs/contributors)
+* This Source Code Form is subject to the terms of the Mozilla Public
+* License, v. 2.0. If a copy of the MPL was not distributed with this
+* file, You can obtain one at https://mozilla.org/MPL/2.0/.
+*
+* Documentation: https://nyxspace.com/
+*/
+
+//! Verification seam, compiled only with the `verif_seam` feature (off by default).
+//!
+//! Provides a drop-in for `std::fs::File` whose `open` can be redirected, per thread, to a
+//! reader supplied by a test harness. When no opener is installed on the calling thread,
+//! `File::open` is `std::fs::File::open`, so enabling the feature alone changes nothing.
+//! No fault logic lives here: what the reader does is entirely up to the harness.
+
+use std::cell::RefCell;
+use std::io::{self, Read};
+use std::path::Path;
+
+/// Called instead of `std::fs::File::open` on the thread that installed it.
+pub type Opener = Box<dyn FnMut(&Path) -> io::Result<Box<dyn Read>>>;
+
+thread_local! {
+    static OPENER: RefCell<Option<Opener>> = const { RefCell::new(None) };
+}
+
+/// Installs (or, with `None`, removes) this thread's opener and returns the previous one.
+pub fn set_opener(opener: Option<Opener>) -> Option<Opener> {
+    OPENER.with(|slot| core::mem::replace(&mut *slot.borrow_mut(), opener))
+}
+
+/// Stand-in for `std::fs::File`, restricted to what the leap second file loader needs.
+pub struct File(Box<dyn Read>);
+
+impl File {
+    pub fn open<P: AsRef<Path>>(path: P) -> io::Result<File> {
+        // The opener is taken out of the slot while it runs so that it may itself open files.
+        match OPENER.with(|slot| slot.borrow_mut().take()) {
+            Some(mut opener) => {
+                let rslt = opener(path.as_ref());
+                OPENER.with(|slot| {
+                    let mut slot = slot.borrow_mut();
+                    if slot.is_none() {
+                        *slot = Some(opener);
+                    }
+                });
+                rslt.map(File)
+            }
+            None => std::fs::File::open(path).map(|f| File(Box::new(f))),
+        }
+    }
+}
+
+impl Read for File {
+    fn read(&mut self, buf: &mut [u8]) -> io::Result<usize> {
+        self.0.read(buf)
+    }
+}
